@@ -4,7 +4,7 @@ From Coq Require Import Sorting.Sorted.
 From BV Require Import Base.Prelude Model.Block Model.ForkDB Model.Forkable Model.ForkableLookups
   Model.Burst Model.Hub Model.CursorResolver Model.Joining
   Spec.Consumer Spec.Universe Check.Burst_Check Check.C07_Check Spec.C06_Spec Spec.C07_Spec Spec.C09_Spec
-  Spec.C13_Spec Spec.C07_Compose_Spec Spec.C13_Stop_Spec Proofs.C07_ComposeCheck Proofs.C13_StopRun
+  Spec.C13_Spec Spec.C07_Compose_Spec Spec.C13_Stop_Spec Proofs.C07_ComposeCheck Proofs.C13_StopRun Proofs.C13_FullRefuted
   Properties.C07_Compose.
 Local Open Scope N_scope.
 
@@ -22,6 +22,12 @@ Print Assumptions c13_stop_cut_partial.
 Theorem c13_stop_reached_partial : C13_stop_reached.
 Proof. exact c13_stop_reached_proof. Qed.
 Print Assumptions c13_stop_reached_partial.
+
+(* C13_stop_full of Spec/C13_Spec.v as stated (every world, every filter, every cursor at or below S) is refutable:
+   a cursor on a forked block whose canonical replacement lies beyond the bundle of S (skipped numbers) *)
+Theorem c13_stop_full_refuted : ~ C13_stop_full.
+Proof. exact c13_stop_full_refuted_proof. Qed.
+Print Assumptions c13_stop_full_refuted.
 
 (* ---- non-vacuity: the world of Properties/C07_Compose.v (chain 2..20 with the sibling 116 of block 16) ---- *)
 
